@@ -128,6 +128,26 @@ pub struct ConnectionH1<Front: SocketHandler> {
     pub session_ulid: Ulid,
 }
 
+/// Elide the trailer fields (and the blank line closing them) queued on a
+/// message that is not chunked. The head - `StatusLine` .. `Flags{end_header}`
+/// - is queued in one piece, so a queued `Header` belongs to the trailers iff
+/// the head's closing `Flags` precede it, or the head has already left the
+/// queue.
+fn drop_unframed_trailers(kawa: &mut super::GenericHttpStream) {
+    let mut in_head = matches!(kawa.blocks.front(), Some(kawa::Block::StatusLine));
+    for block in kawa.blocks.iter_mut() {
+        match block {
+            kawa::Block::Flags(flags) if in_head => in_head = !flags.end_header,
+            kawa::Block::Flags(flags) => {
+                flags.end_header = false;
+                flags.end_chunk = false;
+            }
+            kawa::Block::Header(pair) if !in_head => pair.elide(),
+            _ => {}
+        }
+    }
+}
+
 impl<Front: SocketHandler> std::fmt::Debug for ConnectionH1<Front> {
     fn fmt(&self, f: &mut std::fmt::Formatter<'_>) -> std::fmt::Result {
         f.debug_struct("ConnectionH1")
@@ -515,6 +535,14 @@ impl<Front: SocketHandler> ConnectionH1<Front> {
         if matches!(self.position, Position::Server) && !parts.context.headers_response.is_empty() {
             let edits = std::mem::take(&mut parts.context.headers_response);
             super::shared::apply_response_header_edits(kawa, &edits);
+        }
+        // HTTP/1 can only carry trailer fields after a chunked body (RFC 9112
+        // §7.1.2). An H2 peer may send trailers after a body it declared with
+        // content-length; `pkawa::handle_trailer` queues them as `Header` blocks
+        // followed by closing `Flags`. Serialised after the last body byte they
+        // would be read by the H1 peer as the start of the next message.
+        if matches!(kawa.body_size, kawa::BodySize::Length(_)) {
+            drop_unframed_trailers(kawa);
         }
         kawa.prepare(&mut kawa::h1::BlockConverter);
         let mut io_slices = Vec::new();
